@@ -17,4 +17,73 @@ CHECKS = {
   design_ref="DESIGN.md section 8 (C18), 3.6"),
 }
 
+
+PROOF_NOTE = ("Relative to: the R-axioms about re named in the evidence (assumed contracts on the dependency), the class invariant "
+              "Inv of operands (= contract of Pregex.__infer_type, only bounded-checked by stand-in B1), the VC generator "
+              "pvc/symex.py with encoding assumptions E1-E12 of DESIGN.md, CPython's regex parser as reader of emitted text, z3/cvc5.")
+
+CHECKS["C04"] = dict(
+  category="proof",
+  text="VCs generated from the real bodies of optional/indefinite/one_or_more/exactly/at_least/at_most/at_least_at_most/__mul__/"
+       "__rmul__ (and the helpers they call, each against its own contract): for every inferred operand type, every argument kind "
+       "(int, bool, None, float, str, other) and ALL integers, exceptions are raised iff documented and the emitted text parses to "
+       "the same tree as the fully parenthesised (?:P){lo,hi}[?] - integer leaves compared by the solver. Unbounded in the integers "
+       "and operands.",
+  note=PROOF_NOTE + " Bounds below sre MAXREPEAT.",
+  technique="contract-based deductive verification: AST->VC symbolic execution of the real methods, callee contracts, z3; tree equality via CPython's parser on placeholder texts",
+  design_ref="DESIGN.md section 8 (C04), 3.3, Appendix B.1")
+CHECKS["C09"] = dict(
+  category="proof",
+  text="Proved by VCs: every quantifier entry point raises CannotBeRepeatedException iff the request can repeat, the operand is "
+       "non-empty and its repeatable flag is False - for all operands, argument kinds and integers. The VALUE of the flag for each "
+       "emitted text (direct anchors/positive look-arounds False, anchor-free patterns True) is the contract of __infer_type and "
+       "is only bounded-checked (stand-in B1: ~270k one/two-step DSL expressions per hash seed); that part is exploration.",
+  note=PROOF_NOTE,
+  technique="contract-based deductive verification of the quantifier methods (z3) + bounded stand-in B1 for the assumed contract of __infer_type",
+  design_ref="DESIGN.md section 8 (C09), 7 (B1)")
+G5NOTE = ("Relative to the assumed contracts R5/R8 on `re` (pvc/remodel.py): what re finds is uninterpreted; accessors satisfy the "
+          "documented relations. B4 (compile(get_pattern()) == compile(pattern)) assumed. Generators are treated as eager (E9).")
+CHECKS["C11"] = dict(
+  category="proof",
+  text="Wiring VCs over the real bodies: has_match/is_exact_match/iterate_*/get_* matches (+_and_pos) return the R8 oracle term for "
+       "exactly (pattern, MULTILINE|DOTALL, text) on both the cached-compiled and the uncompiled branch; compile/"
+       "get_compiled_pattern/purge preserve the cache invariant and write only the cache (frame), so results are independent of any "
+       "history. All patterns, texts, histories - no bound. The same contracts are also evaluated at run time on the real code "
+       "(bounded, reported separately).",
+  note=G5NOTE, technique="contract-based deductive verification (wiring contracts against an axiomatised re API; EUF/LIA in z3)",
+  design_ref="DESIGN.md section 8 (C11)")
+CHECKS["C12"] = dict(
+  category="proof",
+  text="VCs with inner-loop invariants (counter == K and groups == CAPPOS(match, K); NAMEDPOS for the named variant, recursive "
+       "spec functions unfolded by z3): every returned entry is (group(i), span(i) - offset) of the same group i / of the group the "
+       "name refers to; include_empty removes exactly the '' captures. All group layouts, texts, flag combinations.",
+  note=G5NOTE, technique="contract-based deductive verification with loop invariants over EUF list terms (z3)",
+  design_ref="DESIGN.md section 8 (C12), Appendix B.4")
+CHECKS["C13"] = dict(
+  category="proof",
+  text="split_by_match: loop invariant proved (index == previous match end, pieces == SPLITS(K)); replace: exact re.sub wiring and "
+       "InvalidArgumentValueException iff count < 0; reconstruction lemmas over slices discharged by cvc5/z3 in the string theory. "
+       "split_by_capture is outside the verifier's loop forms: its contract is checked by a bounded stand-in only.",
+  note=G5NOTE + " split_by_capture: bounded (20 patterns x 14 texts x flags).",
+  technique="contract-based deductive verification (loop invariant, string-theory lemmas) + bounded stand-in for split_by_capture",
+  design_ref="DESIGN.md section 8 (C13)")
+CHECKS["C14"] = dict(
+  category="proof",
+  text="All public methods with an is_path parameter are enumerated from the signatures each run; each is proved against a contract "
+       "stated over text = READ(path) if is_path else source, i.e. m(path, True) == m(READ(path), False); context windows equal "
+       "text[max(s-nl,0):min(e+nr,len(text))] with the argument exceptions raised iff documented; windows contain their match (lemma).",
+  note=G5NOTE + " READ = open(path,'r',encoding='utf-8').read().",
+  technique="contract-based deductive verification (wiring contracts, slice lemmas; z3 + cvc5)",
+  design_ref="DESIGN.md section 8 (C14)")
+CHECKS["C19"] = dict(
+  category="proof",
+  text="Complete decision per format: the real Date constructor is executed for each of the 48 documented formats (and formats=None), "
+       "both is_extensible settings, and the language of possible matches of the emitted regex in every context is proved equal to the "
+       "language generated from the format string (independent table) by regular-language inclusion in both directions - all texts. "
+       "Subsets: sampled subsets decided likewise; __date_formats() equals the documented list; undocumented formats rejected (bounded sample).",
+  note="Relative to R3,R4,R6,R7, the rx2smt translator (cross-checked against re each run), z3 regex theory + derivative-product "
+       "decision procedure (both must agree), specs/dates.py. Arbitrary subsets rest on Either's contract (C02).",
+  technique="postcondition on the emitted pattern decided for all texts by regular-language inclusion (z3 regex theory cross-checked by a derivative-product procedure); finite parameter domain executed on the real code",
+  design_ref="DESIGN.md section 8 (C19), 3.6")
 NOT_APPLICABLE = {p: PENDING for p in ["C%02d" % i for i in range(1, 21)] if p not in CHECKS}
+
